@@ -128,6 +128,8 @@ type Built struct {
 	Calls []*int
 	// Armed switches producers with WhenArmed on and off.
 	Armed *bool
+	// FilePaths are the on-disk files created for "file" sources.
+	FilePaths []string
 }
 
 // Env holds per-process resources for builders.
@@ -378,6 +380,7 @@ func Build(spec *MsgSpec, env *Env) (*Built, error) {
 				return err
 			}
 			fopts = append(fopts, mail.WithFileName(f.Name))
+			b.FilePaths = append(b.FilePaths, path)
 			if embed {
 				m.EmbedFile(path, fopts...)
 			} else {
